@@ -222,3 +222,16 @@ opts_ob("opts_names_x_token", 1, 0, 0x7f, "quick", 600)
 opts_ob("opts_env_x_names", 0, 1, 0x15, "quick", 600)
 opts_ob("opts_env_x_token", 1, 1, 0x04, "thorough", 3000)
 opts_ob("opts_names_x_2tokens", 2, 0, 0x7f, "thorough", 3000)
+
+# ------------------------------------------------------------------------------- expand.c block-level checks
+EXP_ASM = ["codec entry points (parse/scan/retrieve/decode/emit) replaced by contract stubs", "scheduler lock and I/O threads stubbed (single-threaded query); heap helpers replaced by a bag with correct head extraction (real helpers: heap_ops)"]
+add("reorder_checks", "h_expand.c", "h_reorder_checks", {"C05": "quick", "C15": "quick", "C07": "quick", "C06": "quick"}, cbmc=["--unwind", "20"], backend="kissat", timeout=300, mem_gb=6,
+    functions=["src/expand.c:do_reorder", "src/expand.c:can_reorder", "src/expand.c:init", "src/process.h:deque/pqueue macros"],
+    witnesses=["fatal_error_reported", "bogus_candidate_dropped", "partial_block_written", "block_accepted"],
+    bounds="one finished output block against one parsed block header; positions, both CRCs, block size, status (every enum value) and level symbolic (complete for this step)",
+    assumptions=EXP_ASM)
+add("parse_finish", "h_expand.c", "h_parse_finish", {"C05": "quick", "C07": "quick", "C09": "quick"}, cbmc=["--unwind", "20"], backend="kissat", timeout=300, mem_gb=6,
+    functions=["src/expand.c:do_parse (FINISH branch)", "src/expand.c:attach", "src/expand.c:detach", "src/expand.c:advance", "src/expand.c:bits_init", "src/expand.c:on_input_avail", "src/expand.c:can_parse", "src/expand.c:init"],
+    witnesses=["fatal_error_reported", "end_inside_a_padded_word_accepted", "garbage_word_given_back"],
+    bounds="last input block of 1..2 words with 0..3 padding bytes; parser start word, stop position (0..15 bits left) and garbage count (0/16/32) symbolic",
+    assumptions=EXP_ASM + ["parse() stub: consumes all available words, leaves <16 bits, reports FINISH with the given garbage count"])
